@@ -63,7 +63,7 @@ theorem omKeys_remove_sublist (m : OMap β) (k : Nat) :
     simp only [omRemove]
     split
     · simp only [omKeys, List.map_cons]; exact List.sublist_cons_self _ _
-    · simp only [omKeys, List.map_cons]; exact List.Sublist.cons₂ _ ih
+    · simp only [omKeys, List.map_cons]; exact List.Sublist.cons_cons _ ih
 
 theorem omWf_remove (m : OMap β) (k : Nat) (h : omWf m) : omWf (omRemove m k) :=
   List.Nodup.sublist (omKeys_remove_sublist m k) h
